@@ -2,10 +2,12 @@ package main
 
 import (
 	"fmt"
+	"go/constant"
 	"go/token"
 	"go/types"
 	"strings"
 	"unicode"
+	"unicode/utf8"
 
 	"golang.org/x/tools/go/ssa"
 )
@@ -16,7 +18,7 @@ func init() {
 		Explanation: "R1 case discipline: every value read from Token.Raw/Token.AsString that takes part in a decision of the parser goes through char.EqualFold (Token.IsKeywordLike/IsIdent, whose shape is checked); a direct ==, switch or map lookup of the spelling against a constant containing a letter is a violation; user-visible values are stored without case conversion; reserved words are matched on Kind, which the lexer derives through char.ToUpper (C14/R1). " +
 			"R2 trivia and position non-interference: forward taint analysis over the SSA of package memefish from Token.Space, Token.Comments and every token.Pos-typed value (Token.Pos/End, node Pos()/End(), Lexer.pos) to the sinks 'branch condition in a parser function' and 'store into a non-position field of an ast node' (BadNode.Tokens excepted; token.Pos.Invalid() is the one sanitiser: it separates 'absent' from any real offset). There must be no flow: comments, whitespace and offsets cannot change the tree. " +
 			"R3 keyword-class consistency (C08/R2, shared). Does not decide: the lexer side (that re-spacing never changes token boundaries).",
-		Rules: []ruleFn{ruleC16R1, ruleC16R2, ruleC08R2, ruleC14R8, ruleC14R5, ruleC14R7, ruleC16R3},
+		Rules: []ruleFn{ruleC16R1, ruleC16R2, ruleC08R2, ruleC14R8, ruleC14R5, ruleC14R7, ruleC16R3, ruleC16R4, ruleC16R5},
 	})
 }
 
@@ -564,4 +566,277 @@ func returnsFalseVia(b *ssa.BasicBlock) bool {
 		}
 	}
 	return false
+}
+
+// ruleC16R4: the white space that may be changed between tokens is what (*Lexer).skipSpaces skips. For each of the 128
+// ASCII bytes the decision of skipSpaces on the one-byte buffer is evaluated (CONCR, heap mode: the function and what it
+// calls in the module are followed instruction by instruction over a Lexer value whose Buffer is that byte; the two
+// library calls it may make, utf8.DecodeRuneInString and unicode.IsSpace, are answered by the library). The cursor must
+// end behind the byte exactly for the six ASCII white-space characters (\t \n \v \f \r and the blank): a form feed that is
+// no longer skipped turns `SELECT\f1` from an accepted re-spelling of `SELECT 1` into an illegal character, a byte that
+// is skipped although it is not white space swallows a token.
+func ruleC16R4(w *World, r *Report) {
+	const rule = "C16/R4"
+	r.rule(rule, "white-space class: on each one-byte ASCII buffer (*Lexer).skipSpaces leaves the cursor behind the byte exactly when the byte is one of \\t \\n \\v \\f \\r ' ' (unicode.IsSpace restricted to ASCII) — the function is evaluated over its whole ASCII domain by the CONCR interpreter, not matched against a source shape", 128)
+	fn := w.fn(w.Mem, "(*Lexer).skipSpaces")
+	if fn == nil {
+		r.errorf("(*Lexer).skipSpaces not found")
+		return
+	}
+	for c := 0; c < 128; c++ {
+		construct := fmt.Sprintf("skipSpaces on byte 0x%02x", c)
+		file := cval{kind: cDyn, typ: "File", fields: map[string]cval{"Buffer": {kind: cConst, c: constant.MakeString(string([]byte{byte(c)}))}, "FilePath": {kind: cConst, c: constant.MakeString("")}}}
+		lx := cval{kind: cDyn, typ: "Lexer", fields: map[string]cval{"File": file, "pos": mkInt(0), "dotIdent": {kind: cConst, c: constant.MakeBool(false)}}}
+		ci := w.newConcr()
+		ci.heap = true
+		ci.intercept = func(callee *ssa.Function, args []cval) (cval, bool) {
+			if callee.Pkg == nil {
+				return cval{}, false
+			}
+			switch callee.Pkg.Pkg.Path() + "." + callee.Name() {
+			case "unicode/utf8.DecodeRuneInString":
+				if sv, ok := bytesOf(args[0]); ok && args[0].kind == cConst {
+					rn, size := utf8.DecodeRuneInString(sv)
+					return cval{kind: cTuple, tuple: []cval{mkInt(int(rn)), mkInt(size)}}, true
+				}
+			case "unicode.IsSpace":
+				if rn, ok := intOf(args[0]); ok {
+					return cval{kind: cConst, c: constant.MakeBool(unicode.IsSpace(rune(rn)))}, true
+				}
+			}
+			return cval{}, false
+		}
+		// strings.TrimLeftFunc(s, pred) / IndexFunc(s, pred) over a known string, pred a function the interpreter can answer
+		// for (unicode.IsSpace, or a function of the module, followed)
+		pred := func(v ssa.Value, rn rune) (bool, bool) {
+			f, ok := v.(*ssa.Function)
+			if !ok {
+				return false, false
+			}
+			if f.Pkg != nil && f.Pkg.Pkg.Path() == "unicode" && f.Name() == "IsSpace" {
+				return unicode.IsSpace(rn), true
+			}
+			if f.Blocks != nil && corePkg(fnPkgPath(f)) {
+				sub := w.newConcr()
+				sub.intercept = ci.intercept
+				o := sub.run(f, []cval{mkInt(int(rn))}, 0)
+				if o.status == "return" && len(o.vals) == 1 && o.vals[0].kind == cConst && o.vals[0].c.Kind() == constant.Bool {
+					return constant.BoolVal(o.vals[0].c), true
+				}
+			}
+			return false, false
+		}
+		ci.interceptCall = func(call *ssa.Call, args []cval) (cval, bool) {
+			callee := call.Call.StaticCallee()
+			if callee.Pkg == nil || callee.Pkg.Pkg.Path() != "strings" || len(args) != 2 || args[0].kind != cConst {
+				return cval{}, false
+			}
+			sv, ok := bytesOf(args[0])
+			if !ok {
+				return cval{}, false
+			}
+			first := len(sv) // offset of the first rune that does not satisfy the predicate
+			firstSat := -1   // offset of the first rune that satisfies it
+			for i, rn := range sv {
+				yes, known := pred(call.Call.Args[1], rn)
+				if !known {
+					return cval{}, false
+				}
+				if !yes && first == len(sv) {
+					first = i
+				}
+				if yes && firstSat < 0 {
+					firstSat = i
+				}
+			}
+			switch callee.Name() {
+			case "TrimLeftFunc":
+				return cval{kind: cConst, c: constant.MakeString(sv[first:])}, true
+			case "IndexFunc":
+				return mkInt(firstSat), true
+			}
+			return cval{}, false
+		}
+		out := ci.run(fn, []cval{lx}, 0)
+		if out.status != "return" {
+			r.undecided(rule, construct, w.pos(fn.Pos()), "the interpretation of skipSpaces does not finish: "+out.status+" "+out.why)
+			continue
+		}
+		pos, ok := intOf(lx.fields["pos"])
+		want := 0
+		if unicode.IsSpace(rune(c)) {
+			want = 1
+		}
+		switch {
+		case !ok:
+			r.undecided(rule, construct, w.pos(fn.Pos()), "the cursor after skipSpaces is not a known value")
+		case pos != want && want == 1:
+			r.bad(rule, construct, w.pos(fn.Pos()), fmt.Sprintf("the white-space character %q is not skipped (cursor at %d): an input re-spelled with it between two tokens is no longer accepted", rune(c), pos))
+		case pos != want:
+			r.bad(rule, construct, w.pos(fn.Pos()), fmt.Sprintf("the byte %q is skipped as white space (cursor at %d) although it is not white space", rune(c), pos))
+		default:
+			r.ok(rule, construct, w.pos(fn.Pos()), fmt.Sprintf("cursor at %d", pos))
+		}
+	}
+}
+
+// ruleC16R5: the parser sees the input only through tokens. Trivia (white space, comments) is absorbed by the lexer when
+// it produces a token; a decision of the parser that looks at the bytes behind the current token — `p.Lexer.peekIs(0, '*')`
+// to recognise `t.*` — sees the white space or the comment a re-spelling puts there and decides differently. Outside the
+// Lexer's own methods the root package may therefore (a) call a method of Lexer only if it produces a whole token (it
+// stores Lexer.Token, directly or in what it calls) or is Clone, and (b) branch on nothing computed from File.Buffer.
+func ruleC16R5(w *World, r *Report) {
+	const rule = "C16/R5"
+	r.rule(rule, "token discipline: outside the methods of Lexer, the root package calls only token-producing methods of Lexer (nextToken / NextToken: they store Lexer.Token, directly or through callees), Clone, and methods that neither read nor move the cursor Lexer.pos (error constructors), and no branch depends on a value computed from File.Buffer or from the result of a byte-level Lexer method (forward slice)", 15)
+	isLexerFn := func(fn *ssa.Function) bool {
+		for f := fn; f != nil; f = f.Parent() {
+			if f.Signature.Recv() != nil {
+				t := f.Signature.Recv().Type()
+				if w.isLexerPtr(t) || isNamed(t, modRoot, "Lexer") {
+					return true
+				}
+			}
+		}
+		return false
+	}
+	// token-producing methods of Lexer
+	produces := map[*ssa.Function]bool{}
+	var lexFns []*ssa.Function
+	for _, fn := range w.ModFns {
+		if fnPkgPath(fn) == modRoot && fn.Blocks != nil && isLexerFn(fn) {
+			lexFns = append(lexFns, fn)
+			for _, b := range fn.Blocks {
+				for _, in := range b.Instrs {
+					st, ok := in.(*ssa.Store)
+					if !ok {
+						continue
+					}
+					if _, isCur := w.curTokenAddr(st.Addr); isCur {
+						produces[fn] = true
+					}
+					if fa, ok := st.Addr.(*ssa.FieldAddr); ok {
+						if _, isCur := w.curTokenAddr(fa.X); isCur {
+							produces[fn] = true
+						}
+					}
+				}
+			}
+		}
+	}
+	// methods that read or move the cursor (Lexer.pos), directly or through other methods of Lexer
+	cursor := map[*ssa.Function]bool{}
+	for _, fn := range lexFns {
+		for _, b := range fn.Blocks {
+			for _, in := range b.Instrs {
+				if fa, ok := in.(*ssa.FieldAddr); ok && fieldAddrName(fa) == "pos" && w.isLexerPtr(fa.X.Type()) {
+					cursor[fn] = true
+				}
+			}
+		}
+	}
+	for changed := true; changed; {
+		changed = false
+		for _, fn := range lexFns {
+			if cursor[fn] {
+				continue
+			}
+			for _, b := range fn.Blocks {
+				for _, in := range b.Instrs {
+					if ci, ok := in.(ssa.CallInstruction); ok {
+						for _, c := range w.Callees(ci) {
+							if cursor[c] && !cursor[fn] {
+								cursor[fn] = true
+								changed = true
+							}
+						}
+					}
+				}
+			}
+		}
+	}
+	for changed := true; changed; {
+		changed = false
+		for _, fn := range lexFns {
+			if produces[fn] {
+				continue
+			}
+			for _, b := range fn.Blocks {
+				for _, in := range b.Instrs {
+					if ci, ok := in.(ssa.CallInstruction); ok {
+						for _, c := range w.Callees(ci) {
+							if produces[c] && !produces[fn] {
+								produces[fn] = true
+								changed = true
+							}
+						}
+					}
+				}
+			}
+		}
+	}
+	var srcs []ssa.Value
+	nCalls := 0
+	for _, fn := range w.ModFns {
+		if fnPkgPath(fn) != modRoot || fn.Blocks == nil || isLexerFn(fn) || fn.Synthetic != "" {
+			continue
+		}
+		for _, b := range fn.Blocks {
+			for _, in := range b.Instrs {
+				if ci, ok := in.(ssa.CallInstruction); ok {
+					callee := ci.Common().StaticCallee()
+					if callee != nil && callee.Signature.Recv() != nil && fnPkgPath(callee) == modRoot && isLexerFn(callee) {
+						nCalls++
+						construct := fmt.Sprintf("call of %s in %s", funcName(callee), funcName(fn))
+						switch {
+						case callee.Name() == "Clone" || produces[callee]:
+							r.ok(rule, construct, w.pos(in.Pos()), "a token-level operation")
+						case !cursor[callee]:
+							r.ok(rule, construct, w.pos(in.Pos()), "does not read or move the cursor")
+						default:
+							r.bad(rule, construct, w.pos(in.Pos()), "a byte-level method of the lexer is used outside the lexer: what it sees or skips are the bytes behind the current token — white space and comments included — so the parse depends on trivia")
+							if v, isV := in.(ssa.Value); isV {
+								srcs = append(srcs, v)
+							}
+						}
+					}
+				}
+				if v, ok := in.(ssa.Value); ok {
+					if ld, isL := isLoad(v); isL {
+						if fa, ok := ld.(*ssa.FieldAddr); ok && fieldAddrName(fa) == "Buffer" {
+							if n := fieldAddrStruct(fa); n != nil && n.Obj().Pkg() != nil && n.Obj().Pkg().Path() == modRoot+"/token" && n.Obj().Name() == "File" {
+								srcs = append(srcs, v)
+							}
+						}
+					}
+				}
+			}
+		}
+	}
+	if nCalls < 4 {
+		r.errorf("only %d calls of Lexer methods found outside the lexer", nCalls)
+		return
+	}
+	nbad := 0
+	if len(srcs) > 0 {
+		sl := w.forwardSlice(srcs, func(f *ssa.Function) bool { return false })
+		seen := map[*ssa.If]bool{}
+		for v := range sl {
+			for _, u := range referrers(v) {
+				iff, ok := u.(*ssa.If)
+				if !ok || seen[iff] {
+					continue
+				}
+				fn := iff.Parent()
+				if fnPkgPath(fn) != modRoot || isLexerFn(fn) {
+					continue
+				}
+				seen[iff] = true
+				nbad++
+				r.bad(rule, fmt.Sprintf("branch on input bytes in %s", funcName(fn)), w.pos(lastPos(iff.Block())), "the condition is computed from File.Buffer (or from the answer of a byte-level lexer method), not from a token: white space or a comment at that place changes the decision")
+			}
+		}
+	}
+	if nbad == 0 {
+		r.ok(rule, "branches on input bytes outside the lexer", "-", fmt.Sprintf("%d read(s) of File.Buffer / byte-level answers outside the lexer followed, no branch depends on them", len(srcs)))
+	}
 }
